@@ -51,6 +51,11 @@ CALLS = [
     # auto-scaling reads a lazily built class-level table
     ('a-auto-e3m2', "bitstring.Array(bitstring.Dtype('e3m2mxfp', scale='auto'), [100.0, 2.0]).tolist()"),
     ('a-auto-e5m2', "bitstring.Array(bitstring.Dtype('e5m2mxfp', scale='auto'), [1e6, 2.0]).tolist()"),
+    # a Dtype made from an existing (cached, shared) Dtype object with a new scale must not touch that object
+    ('d-rescale', "DT(bitstring.Dtype(bitstring.Dtype('int12'), scale=4))"), ('d-int12', "DT(bitstring.Dtype('int12'))"), ('c-int12', "bitstring.Bits('int12=12')"),
+    ('p-int12', "bitstring.pack('int:12', 12)"),
+    # option-sensitive tokens that are not at the start of the string
+    ('c-lit-e4m3', "bitstring.Bits('0b1, e4m3mxfp=1000.0')"), ('c-sp-e4m3', "bitstring.Bits(' e4m3mxfp = 1000.0')"), ('c-rep-e5m2', "bitstring.BitArray('2*(e5m2mxfp8=-1e6)')"),
     ('a-trail2', "bitstring.Array('uint4', [1], trailing_bits='0b1')"), ('c-0a0b', "bitstring.Bits('0x0a0b')"), ('c-0b1', "bitstring.ConstBitStream('0b1')"),
 ]
 CALL_SRC = dict(CALLS)
